@@ -6,13 +6,16 @@ package main
 
 import (
 	"bufio"
+	"bytes"
 	"encoding/json"
 	"flag"
 	"fmt"
 	"os"
+	"os/exec"
 	"runtime"
 	"runtime/debug"
 	"sort"
+	"strings"
 
 	"verif.local/simrt"
 )
@@ -89,7 +92,10 @@ func main() {
 	replay := flag.String("replay", "", "replay file (JSON with a tape); executes exactly that run")
 	trace := flag.Bool("trace", false, "record and print a human-readable trace")
 	sample := flag.Int("sample", 0, "emit the trace of the first N runs")
+	child := flag.Bool("child", false, "internal: one isolated run on behalf of a parent worker")
+	isolateAll := flag.Bool("isolate", false, "run every run in a process of its own (at most 64 runs of the range): used when goroutines or state the library keeps at package level make runs in one process depend on each other")
 	flag.Parse()
+	_ = child
 
 	b, ok := tiers[*tier]
 	if !ok || (*prop != "C10" && *prop != "C11" && *prop != "C19") {
@@ -127,6 +133,7 @@ func main() {
 		m[val]++
 	}
 
+	orphans := 0
 	runOne := func(run uint64, tape *simrt.Tape, tracing bool) (viol *Violation) {
 		emit(startLine{"start", run})
 		out.Flush() // a race report kills the process: the driver must know which run
@@ -156,6 +163,7 @@ func main() {
 		}
 		simrt.End()
 		viol.render()
+		orphans = sim.Orphans()
 		if n := simrt.RaceErrors() - racesBefore; n > 0 {
 			// The report text is on stderr; the driver attaches it.
 			rv := &Violation{Class: "data-race", Detail: fmt.Sprintf("the race detector reported %d data race(s) between simulated tasks in this run", n)}
@@ -201,13 +209,30 @@ func main() {
 		runOne(rf.Run, &rf.Tape, *trace)
 		nruns = 1
 	} else {
+		isolate := *isolateAll
 		for run := *from; run < *to; run++ {
+			if isolate && nruns >= 64 {
+				break
+			}
 			tracing := *trace || int(run-*from) < *sample
+			if isolate {
+				// The library keeps goroutines alive across runs (package-level
+				// state): every further run gets a process of its own, so that
+				// each run still is a pure function of its tape.
+				out.Flush()
+				viol := runIsolated(run, tracing, *prop, *tier, *lane, *seed, out, &counters, &probes, &pairs, tallies)
+				nruns++
+				if viol {
+					break
+				}
+				continue
+			}
 			v := runOne(run, nil, tracing)
 			nruns++
 			if v != nil {
 				break // the driver decides what happens next
 			}
+			simrt.EarlierOrphans += orphans
 		}
 	}
 
@@ -242,4 +267,83 @@ func siteName(i int) string {
 		return siteNames[i]
 	}
 	return "?"
+}
+
+// runIsolated executes one run in a child process and merges its output.
+func runIsolated(run uint64, tracing bool, prop, tier, lane string, seed uint64, out *bufio.Writer,
+	counters *[simrt.NumCounters]int64, probes *[numProbes]int64, pairs *[simrt.MaxSites][simrt.MaxSites]bool,
+	tallies map[string]map[string]int64) (violation bool) {
+	args := []string{"-child", "-prop", prop, "-tier", tier, "-lane", lane, "-seed", fmt.Sprint(seed),
+		"-from", fmt.Sprint(run), "-to", fmt.Sprint(run + 1)}
+	if tracing {
+		args = append(args, "-trace")
+	}
+	cmd := exec.Command(os.Args[0], args...)
+	cmd.Stderr = os.Stderr
+	data, err := cmd.Output()
+	if err != nil {
+		if ee, ok := err.(*exec.ExitError); !ok || (ee.ExitCode() != 66) {
+			fmt.Fprintf(os.Stderr, "INFRA: isolated run %d failed: %v\n", run, err)
+			out.Flush()
+			os.Exit(2)
+		}
+	}
+	for _, l := range bytes.Split(data, []byte("\n")) {
+		if len(l) == 0 {
+			continue
+		}
+		var probe struct {
+			T        string                      `json:"t"`
+			Viol     *json.RawMessage            `json:"violation"`
+			Counters map[string]int64            `json:"counters"`
+			Probes   map[string]int64            `json:"probes"`
+			Tallies  map[string]map[string]int64 `json:"tallies"`
+			Pairs    []string                    `json:"switch_pairs"`
+		}
+		if json.Unmarshal(l, &probe) != nil {
+			continue
+		}
+		switch probe.T {
+		case "start":
+			out.Write(l)
+			out.WriteByte('\n')
+		case "done":
+			out.Write(l)
+			out.WriteByte('\n')
+			if probe.Viol != nil {
+				violation = true
+			}
+		case "summary":
+			for i, n := range simrt.CounterNames {
+				counters[i] += probe.Counters[n]
+			}
+			for i, n := range probeNames {
+				probes[i] += probe.Probes[n]
+			}
+			for dim, m := range probe.Tallies {
+				if tallies[dim] == nil {
+					tallies[dim] = map[string]int64{}
+				}
+				for k, v := range m {
+					tallies[dim][k] += v
+				}
+			}
+			for _, p := range probe.Pairs {
+				a, b, _ := strings.Cut(p, ">")
+				if i, j := siteIndex(a), siteIndex(b); i >= 0 && j >= 0 {
+					pairs[i][j] = true
+				}
+			}
+		}
+	}
+	return violation
+}
+
+func siteIndex(name string) int {
+	for i := 0; i < simrt.MaxSites; i++ {
+		if siteName(i) == name {
+			return i
+		}
+	}
+	return -1
 }
